@@ -17,6 +17,16 @@ MAXOBJ = 4
 
 
 def snapshot(g, n, scale):
+    try:
+        return _snapshot(g, n, scale)
+    except D.DriverError:
+        # the object holds a value outside the exact domain although every input was inside: reported through the refinement clause
+        z = [0] * 2 ** n
+        return {"k": [-1] * 2 ** n, "lo": z, "up": z, "gv_ok": z, "gv": z, "gkv_ok": z, "gkv": z, "gkvs_ok": z, "gkvs": z, "gvs_all": 0,
+                "full": 0, "sk": z, "slo": z, "sup": z}
+
+
+def _snapshot(g, n, scale):
     k = [int(b) for b in g.are_values_known()]
     lo = D.exact_arr(g.get_lower_bounds(), scale)
     up = D.exact_arr(g.get_upper_bounds(), scale)
